@@ -95,6 +95,9 @@ func runOnce(s Scenario, f Fault) (res runResult, infra error) {
 		if f.Kind == "error+certs" {
 			b.ErrWithCerts, b.NCerts = true, s.NCerts
 		}
+		if f.Kind == "wrongkey" {
+			b = vh.CABehaviour{NCerts: s.NCerts, Window: s.Window, WrongKey: true}
+		}
 		ca.Script = append(ca.Script, b, vh.CABehaviour{NCerts: s.NCerts, Window: s.Window})
 	}
 	hlog := &vh.HandlerLog{}
@@ -234,7 +237,7 @@ func exec(s Scenario) (vh.Outcome, error) {
 		faults = append(faults, Fault{"agent", i, "fail"}, Fault{"agent", i, "close"})
 	}
 	for j := 0; j < m; j++ {
-		faults = append(faults, Fault{"ca", j, "error"}, Fault{"ca", j, "panic"}, Fault{"ca", j, "error+certs"})
+		faults = append(faults, Fault{"ca", j, "error"}, Fault{"ca", j, "panic"}, Fault{"ca", j, "error+certs"}, Fault{"ca", j, "wrongkey"})
 	}
 	for _, k := range []string{"name", "authenticate", "generate", "csrs", "addcerts"} {
 		faults = append(faults, Fault{"handler", 0, k})
@@ -273,6 +276,15 @@ func exec(s Scenario) (vh.Outcome, error) {
 			if f.Kind == "panic" {
 				allowed = []string{"Panic"}
 			}
+			if f.Kind == "wrongkey" {
+				// the CA answered, with certificates for another key: they cannot be handed to the agent
+				// beside this request's private key, so the run cannot be a success
+				if res.err == nil {
+					return out, vh.Errf("%s: the CA certified another key than the requested one, the certificates cannot have been handed to the agent, yet Run reported success", fd)
+				}
+				effective++
+				continue
+			}
 			if len(res.caCalls) != f.Index+1 {
 				return out, vh.Errf("%s: the signer received %d calls; the run must stop at the failed call %d", fd, len(res.caCalls), f.Index)
 			}
@@ -299,7 +311,7 @@ func exec(s Scenario) (vh.Outcome, error) {
 	return out, nil
 }
 
-const rule = "scenarios: the real regular handler, or a harness handler producing 1..3 agent keys x 1..3 requests through the repository's AgentKey, CA returning 1..3 certificates per request (validity window as requested / without expiry / until 2^63 s / stamped by a clock 90 s ahead), 0..2 stale labelled certificates in the agent, optionally a rejecting handler in front, run under context.Background, a cancellable context (what cmd/gensign passes) or a deadline context (each case is journaled first: a fault that kills the process instead of coming back as an error is reported with its scenario). Per scenario a fault-free run fixes the number of agent operations n and CA calls m; then EVERY (operation index 0..n-1) x {failure reply, connection closed}, every CA call x {error, panic, error handed back together with certificates} and a panic in each of Name / Authenticate / Generate / CSRs / AddCertsToAgent is executed in a fresh world (exhaustive per scenario; scenarios random). Oracle: challenge fault => AllAuthFailed; agent fault before the first CA call => a typed generation error; CA error => SignerSignErr and no further CA call; list / remove / add-certificate fault => AgentOpCertErr; any panic => Panic; always a *gensign.Error, the process survives; fault-free: nil, CA calls = all requests in order, every returned certificate in the agent; always: certificates added are a subset of those the CA returned. Non-trivial: at least one injected fault was reached and judged."
+const rule = "scenarios: the real regular handler, or a harness handler producing 1..3 agent keys x 1..3 requests through the repository's AgentKey, CA returning 1..3 certificates per request (validity window as requested / without expiry / until 2^63 s / stamped by a clock 90 s ahead), 0..2 stale labelled certificates in the agent, optionally a rejecting handler in front, run under context.Background, a cancellable context (what cmd/gensign passes) or a deadline context (each case is journaled first: a fault that kills the process instead of coming back as an error is reported with its scenario). Per scenario a fault-free run fixes the number of agent operations n and CA calls m; then EVERY (operation index 0..n-1) x {failure reply, connection closed}, every CA call x {error, panic, error handed back together with certificates, certificates issued for another key} and a panic in each of Name / Authenticate / Generate / CSRs / AddCertsToAgent is executed in a fresh world (exhaustive per scenario; scenarios random). Oracle: challenge fault => AllAuthFailed; agent fault before the first CA call => a typed generation error; CA error => SignerSignErr and no further CA call; list / remove / add-certificate fault => AgentOpCertErr; any panic => Panic; always a *gensign.Error, the process survives; fault-free: nil, CA calls = all requests in order, every returned certificate in the agent; always: certificates added are a subset of those the CA returned. Non-trivial: at least one injected fault was reached and judged."
 
 func TestC04Faults(t *testing.T) {
 	vh.Run(t, vh.Spec[Scenario]{Property: "C04", Name: "TestC04Faults", Rule: rule, Journal: true,
